@@ -102,8 +102,38 @@ func GenEngineScript(r *Rng, o EngineGenOpts, hist map[string]int) []string {
 	var out []string
 	add := func(format string, a ...interface{}) { out = append(out, "E "+fmt.Sprintf(format, a...)) }
 	c := genCfg(r, o, hist)
+	steer := o.BigVals && r.Chance(1, 3)
+	if steer {
+		c.fsize = 1 << 20
+	}
 	add("dir db")
 	add("open %s", c)
+	if steer {
+		// records that end within 8 bytes of a block boundary (the file offset is known: the
+		// database is fresh and the file limit is far away)
+		st := &fileState{}
+		ns := 1 + r.Intn(3)
+		for i := 0; i < ns; i++ {
+			key := engKeys[r.Intn(3)]
+			klen := len(key) / 2
+			blocks := r.Pick(0, 0, 1, 2)
+			end := bs - 8 + r.Intn(17)
+			v := valueLenForEnd(st.off, klen, 0, blocks, end)
+			if v <= 0 {
+				break
+			}
+			add("put %s @%d:%d", key, v, r.Intn(99999))
+			st.advance(encLen(klen, v, 0))
+			hist["steered_end_near_boundary"]++
+			// whatever is written next starts right at / after the boundary
+			k2 := engKeys[3+r.Intn(3)]
+			v2 := 1 + r.Intn(50)
+			add("put %s @%d:%d", k2, v2, r.Intn(99999))
+			st.advance(encLen(len(k2)/2, v2, 0))
+			add("get %s", key)
+			add("get %s", k2)
+		}
+	}
 	nops := o.Ops/2 + r.Intn(o.Ops)
 	backupN := 0
 	var backups []string
